@@ -94,7 +94,73 @@ fn finish(out: &mut Vec<String>, pos: usize, buf: Box<[u8]>, delivered: usize) -
     out.join(" ")
 }
 
+// >>> s_c07 (wave 6): measurement kind `tr.trace` -- for every next() call the length of the window when the call
+// was made (bytes delivered by the Read minus position()), the number of Read::read calls the call caused and the
+// length of the token it returned.  No model counterpart: used to MEASURE which window lengths / refill counts the
+// generators reach (audit/C07.md, "Size dimensions") and to assert that the ladders reach what they claim.
+struct CountedRead {
+    inner: SchedRead,
+    stat: std::rc::Rc<std::cell::Cell<(usize, usize)>>,
+}
+
+impl Read for CountedRead {
+    fn read(&mut self, buf: &mut [u8]) -> std::io::Result<usize> {
+        let r = self.inner.read(buf);
+        let (d, c) = self.stat.get();
+        self.stat.set((d + r.as_ref().map(|x| *x).unwrap_or(0), c + 1));
+        r
+    }
+}
+
+fn trace<R: Read>(rd: &mut TokenReader<R>, total: usize, stat: Option<&std::rc::Rc<std::cell::Cell<(usize, usize)>>>, limit: usize) -> String {
+    let mut out: Vec<String> = Vec::new();
+    for _ in 0..limit {
+        let (d0, c0) = stat.map(|s| s.get()).unwrap_or((total, 0));
+        let w = d0 - rd.position();
+        let (k, len, stop) = match rd.next() {
+            Ok(Some(Token::Open)) => ('O', 1, false),
+            Ok(Some(Token::Close)) => ('C', 1, false),
+            Ok(Some(Token::Operator(_))) => ('P', 1, false),
+            Ok(Some(Token::Unquoted(s))) => ('U', s.as_bytes().len(), false),
+            Ok(Some(Token::Quoted(s))) => ('Q', s.as_bytes().len(), false),
+            Ok(None) => ('E', 0, true),
+            Err(_) => ('X', 0, true),
+        };
+        let (_, c1) = stat.map(|s| s.get()).unwrap_or((total, 0));
+        out.push(format!("{}:{}:{}:{}", k, w, c1 - c0, len));
+        if stop {
+            break;
+        }
+    }
+    out.join(" ")
+}
+
+pub fn dispatch_trace(kind: &str, a: &[&str]) -> Option<String> {
+    match (kind, a) {
+        // tr.trace <cap | new | slice> <sched> <hex>
+        ("tr.trace", [cap, sched, h]) => {
+            let d = unhex(h);
+            let n = d.len();
+            if *cap == "slice" {
+                let mut rd = TokenReader::from_slice(&d);
+                return Some(trace(&mut rd, n, None, n + 2));
+            }
+            let stat = std::rc::Rc::new(std::cell::Cell::new((0usize, 0usize)));
+            let src = CountedRead { inner: SchedRead::new(d, parse_sched(sched)), stat: stat.clone() };
+            let mut rd = if *cap == "new" { TokenReader::new(src) } else { TokenReader::builder().buffer_len(p(cap)).build(src) };
+            Some(trace(&mut rd, n, Some(&stat), n + 2))
+        }
+        _ => None,
+    }
+}
+// <<< s_c07
+
 pub fn dispatch(kind: &str, a: &[&str]) -> Option<String> {
+    // >>> s_c07 (wave 6)
+    if let Some(r) = dispatch_trace(kind, a) {
+        return Some(r);
+    }
+    // <<< s_c07
     let r = match (kind, a) {
         // tr.ops <mode> <cap> <sched> <hex> <ops>
         //   mode: slice | new | len | buf<fill byte>
